@@ -100,6 +100,7 @@ def items_library(tier):
         for c in cyc:
             yield {"ctor": "repcode", "d": d, "cycles": c}
         yield {"ctor": "simplified", "d": d, "cycles": 2}
+        yield {"ctor": "simplified", "d": d, "cycles": 3, "refocus": False}
         yield {"ctor": "multi", "d": d, "rounds": [0, 2, 1] if d == 2 else [3, 0]}
         yield {"ctor": "multi", "d": d, "rounds": [4]}
     yield {"ctor": "calibration", "d": 3, "type": "QUBIT"}
